@@ -678,13 +678,20 @@ impl Harness for C10 {
         };
         jobs.sort_by_key(|j| rank(&j.name));
         jobs.insert(0, Job::new("builders", json!({"kind": "builders"})));
+        {
+            let j = &mut jobs;
+            for i in 0..mc_sc::entry::n_parts("C10") {
+                j.insert(1 + i, Job::new(format!("entry-{}", i), json!({"kind": "entry", "part": i})));
+            }
+        }
         Plan {
             jobs,
             budget_s: if t { 2700 } else { 40 },
             case_deadline_ms: 20_000,
-            floors: vec![("builder_chains", 5), ("svc_fits", 100_000), ("svc_non_identity_orders", 100_000), ("svc_clipped_at_C", 1000), ("svr_fits", 10_000), ("svr_at_C", 100), ("svr_zero_weight_rows", 100), ("kernel_pairs", 5000), ("kernel_pairs_off_centre", 4000), ("kernel_pairs_f32", 2500), ("gram_matrices", 1000), ("gram_matrices_off_centre", 800)],
+            floors: vec![("builder_chains", 5), ("entry_cases", 1000), ("svc_fits", 100_000), ("svc_non_identity_orders", 100_000), ("svc_clipped_at_C", 1000), ("svr_fits", 10_000), ("svr_at_C", 100), ("svr_zero_weight_rows", 100), ("kernel_pairs", 5000), ("kernel_pairs_off_centre", 4000), ("kernel_pairs_f32", 2500), ("gram_matrices", 1000), ("gram_matrices_off_centre", 800)],
             bounds: json!({
                 "builders": mc_sc::builders::BOUNDS,
+                "entry_paths": mc_sc::entry::BOUNDS,
                 "svc_all_orders": "every x sequence over {0,1,2}^4 x every labelling with both classes x 4 kernels x (C,tol,encoding) settings x ALL (4!)^2 visiting orders (epoch 1); 2-D: every 4-subset of the 3x2 lattice; epoch 2 ((4!)^3 orders) on one sequence family (all in thorough); n=5 with all (5!)^2 orders for the linear and RBF kernels in thorough",
                 "svc_deviation_bounded": "n=6..8 fixed point sets, epochs 1,2(,4): every schedule with at most 1 (2 thorough) non-identity Fisher-Yates steps",
                 "svr": "every x sequence over {0,1,2}^n, y over {-1,0,2}^n, n<=4 (5 thorough) x eps {0,.1,.5} x C {.1,1,100} x tol {1e-2,1e-3,1e-4} x {linear,rbf,poly}; structured sets n in {8,20,72} (also 40,80 thorough)",
@@ -694,6 +701,9 @@ impl Harness for C10 {
     }
 
     fn run(&self, job: &Job) {
+        if job.kind() == "entry" {
+            return mc_sc::entry::run_part("C10", job.u("part"));
+        }
         match job.kind() {
             "svc" => svc_case(job),
             "svr" => svr_case(job),
